@@ -366,6 +366,20 @@ def trace_models(chk, pid, binary, sc, gen, d11, natural, maxperm):
     return list(models.values()), res.distinct, res.generated, validated, len(traces)
 
 
+def event_validate(sc, traces):
+    """TLC on recorded runs alone (bin/selftest): ids of the traces some Impl behaviour follows through every logged step, and the
+    first step at which the others part."""
+    tf = sc.path("wg_traces.ndjson")
+    write_ndjson(tf, traces)
+    res = run_tlc("WGraphTrace", TRACE_CFG % {"devs": DEVS_CURRENT}, sc, data_files={"wg_traces.ndjson": tf}, timeout=1500)
+    ok = {r["id"] for r in res.records if r["rec"] == "outcome" and r.get("evbad", 0) == 0 and r.get("evall", True)}
+    first = {}
+    for r in res.records:
+        if r["rec"] == "evmismatch":
+            first[r["id"]] = max(first.get(r["id"], 0), r["n"])
+    return ok, first
+
+
 API_CFG = """SPECIFICATION SimSpec
 CONSTANTS MaxSteps = 20
 CHECK_DEADLOCK FALSE
